@@ -128,6 +128,8 @@ enum Constraint {
     DivTop(TyID),
     DivBot(TyID),
     DivRes(TyID),
+    /// The other direction of `DivRes` - the dividend knows about the quotient.
+    DivOut(TyID),
     Equ(TyID),
     Cmp(TyID),
     CmpEqu(TyID),
@@ -841,6 +843,9 @@ impl TypeChecker {
                     self.add_constraint(b, *span, Constraint::DivBot(a));
                     let c = self.push_type(Type::Unknown);
                     self.add_constraint(c, *span, Constraint::DivRes(a));
+                    // The quotient has to be reachable from the operands, otherwise it (and what is
+                    // required of it) is forgotten when the operands are copied.
+                    self.add_constraint(a, *span, Constraint::DivOut(c));
                     self.check_constraints(*span, ctx, a)?;
                     self.check_constraints(*span, ctx, b)?;
                     self.check_constraints(*span, ctx, c)?;
@@ -1254,6 +1259,7 @@ impl TypeChecker {
                 Constraint::DivTop(b) => self.div(span, ctx, a, *b), // NOTE(ed): Arguments are flipped
                 Constraint::DivBot(b) => self.div(span, ctx, *b, a), // NOTE(ed): Arguments are flipped
                 Constraint::DivRes(b) => self.div_res(span, ctx, *b, a),
+                Constraint::DivOut(b) => self.div_res(span, ctx, a, *b),
                 Constraint::Equ(b) => self.equ(span, ctx, a, *b),
                 Constraint::Cmp(b) => self.cmp(span, ctx, a, *b),
                 Constraint::CmpEqu(b) => self.equ(span, ctx, a, *b).and(self.cmp(span, ctx, a, *b)),
@@ -1720,6 +1726,7 @@ impl TypeChecker {
                         C::DivTop(x) => C::DivTop(self.inner_copy(*x, seen)),
                         C::DivBot(x) => C::DivBot(self.inner_copy(*x, seen)),
                         C::DivRes(x) => C::DivRes(self.inner_copy(*x, seen)),
+                        C::DivOut(x) => C::DivOut(self.inner_copy(*x, seen)),
                         C::Equ(x) => C::Equ(self.inner_copy(*x, seen)),
                         C::Cmp(x) => C::Cmp(self.inner_copy(*x, seen)),
                         C::CmpEqu(x) => C::CmpEqu(self.inner_copy(*x, seen)),
